@@ -324,14 +324,23 @@ def project_error(eng, e):
 
 def make_recorders(eng):
     class RecIterator(eng.TableIterator):
-        def __init__(self, table, column_names, events, tag, variable_prefix='a'):
+        def __init__(self, table, column_names, events, tag, variable_prefix='a', endless_cap=0):
             eng.TableIterator.__init__(self, table, column_names, True, variable_prefix)
             self.events = events
             self.tag = tag
             self.calls = 0
+            self.endless_cap = endless_cap      # > 0: the iterator never ends (it starts over), up to this many calls (then it gives up)
+            self.gave_up = False
 
         def get_record(self):
             self.calls += 1
+            if self.endless_cap and self.table:
+                if self.calls > self.endless_cap:
+                    self.gave_up = True
+                    self.events.append({'e': 'get_record', 't': self.tag, 'end': True})
+                    return None
+                if self.NR >= len(self.table):
+                    self.NR = 0
             r = eng.TableIterator.get_record(self)
             self.events.append({'e': 'get_record', 't': self.tag, 'end': r is None})
             return r
@@ -397,7 +406,7 @@ def make_recorders(eng):
 _WARN_RAG = re.compile(r'"(\w+)" table is not consistent: e\.g\. record (\d+) -> (\d+) fields, record (\d+) -> (\d+) fields')
 
 
-def run_case_py(mods, case, query_text):
+def run_case_py(mods, case, query_text, endless_cap=0):
     """Run one case through rbql.query with recording iterator / writer. Returns the observation dict."""
     rbql, eng, rcsv, cu = mods
     RecIterator, RecWriter, Registry = make_recorders(eng)
@@ -413,7 +422,7 @@ def run_case_py(mods, case, query_text):
         hdrA = hdrA + ['extra']
     if iofault == 'join_hdr_missing':
         hdrB = None
-    it = RecIterator(A, hdrA, events, 'a')
+    it = RecIterator(A, hdrA, events, 'a', endless_cap=endless_cap)
     wr = RecWriter(events, case['breakAt'], [(A, snapA), (B, snapB)])
     reg = Registry(B, hdrB, events) if case['q']['join'] != 'none' else None
     warnings = []
@@ -426,6 +435,7 @@ def run_case_py(mods, case, query_text):
     obs['hdr'] = wr.header
     obs['events'] = events
     obs['pulled'] = it.calls
+    obs['gave_up'] = it.gave_up
     obs['alias'] = wr.alias
     obs['src_changed'] = wr.src_changed or A != snapA or B != snapB
     obs['warnings'] = warnings
